@@ -77,7 +77,11 @@ def tc (Φ : FEnv) (G : Env) : Nat → Expr F → Option Ty → Option Ty
         | none => none
       else none
     | .binary op l r =>
-      -- the operands have the same type: take it from whichever side can be inferred
+      -- array repetition: an array and a number
+      match (if op = .asterisk then tc Φ G n l none else none) with
+      | some (.arr s) => if tc Φ G n r (some .num) == some .num then accept ex (.arr s) else none
+      | _ =>
+      -- otherwise the operands have the same type: take it from whichever side can be inferred
       let t? : Option Ty := match tc Φ G n l none with
         | some t => some t
         | none => tc Φ G n r none
